@@ -9,6 +9,7 @@ import Oracle.Literal
 import Oracle.SampleMd
 import Oracle.Tokenizer
 import Oracle.Driver
+import Oracle.FSem
 open Oracle
 
 /-- a line is `(<stream> payload...)`; the answer is one S-expression -/
@@ -21,6 +22,7 @@ def handle (line : String) : String :=
     | "c11.scan" | "c11.interp" | "c11.unquote" | "c11.sprintf" | "c11.lit" => toString (Oracle.Literal.handle stream payload)
     | "tok.scan" | "tok.stream" => toString (Oracle.Tokenizer.handle stream payload)
     | "c16.driver" => toString (Oracle.Driver.handle payload)
+    | "c01.prog" => toString (Oracle.FSem.handle payload)
     | "c18.run" => toString (Oracle.SampleMd.handle payload)
     | "c15.type" => toString (Oracle.TypeExpr.handle payload)
     | "c09.match" => toString (Oracle.Exhaust.handle payload)
